@@ -296,5 +296,18 @@ PROPS["C13"] = dict(
                  "type lists [integer, number] and required+additionalProperties:false without properties are excluded (known findings F18, F29)"],
 )
 
+PROPS["C05"] = dict(
+    pkg="c05",
+    subs=[
+        dict(name="closedness", test="TestClosedness", quick=20000, thorough=600000, shards=16),
+    ],
+    technique="rapid-generated schema/data pairs against an independent membership checker written from the spec (closing groups per definition reference, close() one level, embeddings widen, patterns, ellipsis, required fields)",
+    level_text="exploration: schemas built from struct literals with regular/optional/required fields over labels {a,b,c,ab}, pattern constraints ([string], [=~\"^a\"], [\"a\"|\"b\"]), '...', embeddings, close(), references to up to 2 top-level definitions and conjunctions of such terms, nested to depth 3; data structs over the same labels; verdict 's & d validates as concrete' compared with the model in both directions (no silent gain in closed structs, no rejection by open ones, optional constraints on absent fields never fail).",
+    level_note="trusted: the membership model (units, closing groups, leaf extensions) of c05_test.go; leaves are a small set of types and atoms whose unification is decided by a bit-set model",
+    rule="pair (schema, data) from the generators; non-trivial = the schema contains a closing construct (close or a definition reference) and the data has a field that the outermost schema literal does not declare; distinct = program text.",
+    assumptions=["a definition embedded in one conjunct and referenced directly in another is excluded (known finding F14), as is close() inside an embedded literal (known finding F27)",
+                 "a literal that embeds a definition has only scalar-valued own fields (the spec is silent on recursive closing of the host's nested fields)"],
+)
+
 NOT_APPLICABLE = {}
 HOOK_COMMITS = []
